@@ -104,6 +104,14 @@ def run(ctx):
         pool.shutdown(wait=False)
     g = gof.result()
     lib.collect_go(ctx, g)
+    # identities under concurrency: authorised and unauthorised first packets together, the dispatching goroutine descheduled
+    # between authenticating the packet and looking the user up (Handshake.tla judges every packet by its own sealed UID)
+    cc = lib.run_go(ctx, "server", "TestVerifC07Concurrent", timeout=900, tag="concurrent", prefixes=("c06", "c07", "shared"))
+    lib.collect_go(ctx, cc)
+    if cc["stats"].get("authorised_not_served", 0):
+        raise lib.Inconclusive("concurrent stage: authorised connections were not served: %s" % cc.get("notes", [])[:3])
+    ctx.log("concurrent identities: %d unauthorised + %d authorised first packets in %d rounds, %d violations" % (
+        cc["stats"].get("conc_bad", 0), cc["stats"].get("conc_good", 0), cc["evaluations"], len(cc.get("violations", []))))
     gs = g["stats"]
     ctx.log("replay: %d real clients, %d single-bit flips, %d multi-byte edits, %d environment presentations on %d base packets; %.1fs" % (
         sum(v for k, v in gs.items() if k.startswith("clients:")), gs.get("single_bit_flips", 0), gs.get("multi_byte_edits", 0),
